@@ -67,12 +67,30 @@ func (l Lin) String() string {
 	return sb.String()
 }
 
-func linAtom(a string) Lin     { return Lin{a: 1} }
-func linConst(c int64) Lin     { return Lin{"1": c}.norm() }
-func (l Lin) add(o Lin) Lin    { n := l.clone(); for k, v := range o { n[k] += v }; return n.norm() }
-func (l Lin) sub(o Lin) Lin    { n := l.clone(); for k, v := range o { n[k] -= v }; return n.norm() }
-func (l Lin) scale(c int64) Lin { n := Lin{}; for k, v := range l { n[k] = v * c }; return n.norm() }
-func (l Lin) equal(o Lin) bool  { return l.sub(o).String() == "0" }
+func linAtom(a string) Lin { return Lin{a: 1} }
+func linConst(c int64) Lin { return Lin{"1": c}.norm() }
+func (l Lin) add(o Lin) Lin {
+	n := l.clone()
+	for k, v := range o {
+		n[k] += v
+	}
+	return n.norm()
+}
+func (l Lin) sub(o Lin) Lin {
+	n := l.clone()
+	for k, v := range o {
+		n[k] -= v
+	}
+	return n.norm()
+}
+func (l Lin) scale(c int64) Lin {
+	n := Lin{}
+	for k, v := range l {
+		n[k] = v * c
+	}
+	return n.norm()
+}
+func (l Lin) equal(o Lin) bool { return l.sub(o).String() == "0" }
 func (l Lin) isConst() (int64, bool) {
 	l.norm()
 	if len(l) == 0 {
@@ -88,13 +106,13 @@ func (l Lin) isConst() (int64, bool) {
 
 // PathSummary is the effect of one entry->return path.
 type PathSummary struct {
-	Blocks  []*ssa.BasicBlock
-	Conds   []PathCond
-	Ret     *ssa.Return
-	Mem     map[string]Lin     // final value of tracked cells (key: pointee term string)
-	MemSet  map[string]ssa.Value // last non-arithmetic value stored into a tracked cell (e.g. a fresh map)
-	Events  []PathEvent
-	val     map[ssa.Value]Lin
+	Blocks []*ssa.BasicBlock
+	Conds  []PathCond
+	Ret    *ssa.Return
+	Mem    map[string]Lin       // final value of tracked cells (key: pointee term string)
+	MemSet map[string]ssa.Value // last non-arithmetic value stored into a tracked cell (e.g. a fresh map)
+	Events []PathEvent
+	val    map[ssa.Value]Lin
 }
 
 type PathCond struct {
